@@ -83,6 +83,13 @@ let gen ~(tier : string) ~(seed : int) ~(emit : Sexp.t -> unit) : unit =
   done;
   (* chains with parentheses in every operand position, against the independent left-associating reader *)
   Chains.enumerate (fun toks -> emit (L [ A "parsesrc"; A (Gen_prog.hex_of_string (Chains.wrapper ^ Chains.text_of toks)); A "chain" ]));
+  for _ = 1 to (if tier = "quick" then 20000 else 200000) do
+    let toks = Chains.random_huge r (1 + Rng.int r 3) in
+    (* a unary minus right after an operand of an application is a difference, which the reference reader handles too *)
+    (try ignore (Chains.parse toks);
+       emit (L [ A "parsesrc"; A (Gen_prog.hex_of_string (Chains.wrapper ^ Chains.text_of toks)); A "chain" ])
+     with Chains.Stuck -> ())
+  done;
   (* real programs *)
   for i = 1 to (if tier = "quick" then 4000 else 40000) do
     let m = if i mod 2 = 0 then Gen_prog.full_annot else Gen_prog.mixed in
